@@ -139,7 +139,11 @@ package document
 //@ partial
 //@ requires te != nil && data != nil && tableRoot(table, B) && closedAbove(B)
 //@ modifies Table.Rows, TableRow.*, Paragraph.Runs
-//@ ensures unchangedBelow(B) && closedAbove(B) && tableRoot(table, B)
+//@ ensures unchangedBelow(B)
+//@ ensures closedRows(B)
+//@ ensures closedCells(B)
+//@ ensures closedTables(B)
+//@ ensures tableRoot(table, B)
 //@ ensures forall t *Table :: !isElem(t) && t != table ==> t.Rows == old(t.Rows)
 //@ ensures forall r *TableRow :: !isElem(r) && allocated(r) ==> r.Cells == old(r.Cells)
 //@ ensures forall p *Paragraph :: !isElem(p) && allocated(p) ==> p.Runs == old(p.Runs)
@@ -172,7 +176,11 @@ package document
 //@ ignore-ensures deepcopy
 //@ requires te != nil && data != nil && tableRoot(table, B) && closedAbove(B)
 //@ modifies Table.Rows, TableRow.*, Paragraph.Runs
-//@ ensures unchangedBelow(B) && closedAbove(B) && tableRoot(table, B)
+//@ ensures unchangedBelow(B)
+//@ ensures closedRows(B)
+//@ ensures closedCells(B)
+//@ ensures closedTables(B)
+//@ ensures tableRoot(table, B)
 //@ ensures forall t *Table :: !isElem(t) && t != table ==> t.Rows == old(t.Rows)
 //@ ensures forall r *TableRow :: !isElem(r) && allocated(r) ==> r.Cells == old(r.Cells)
 //@ ensures forall p *Paragraph :: !isElem(p) && allocated(p) ==> p.Runs == old(p.Runs)
